@@ -101,6 +101,31 @@ pub fn create_server_config_from_files<P: AsRef<Path>>(
 
 /// Certificate verifier that accepts all certificates (for testing only)
 /// Similar to Go's InsecureSkipVerify: true
+/// Build a server config from PEM data already in memory (certificate chain and private key).
+///
+/// Used by the hot-reload path, which reads each file exactly once so that the acceptor and
+/// the reported certificate information come from the same bytes.
+pub fn create_server_config_from_pem(cert_pem: &[u8], key_pem: &[u8]) -> Result<Arc<ServerConfig>> {
+    let mut cert_reader = BufReader::new(cert_pem);
+    let certs = rustls_pemfile::certs(&mut cert_reader)
+        .collect::<std::result::Result<Vec<_>, _>>()
+        .map_err(|e| AnyTlsError::Tls(format!("failed to parse certificate: {e}")))?;
+    if certs.is_empty() {
+        return Err(AnyTlsError::Tls("no certificates found".to_string()));
+    }
+
+    let mut key_reader = BufReader::new(key_pem);
+    let key = rustls_pemfile::private_key(&mut key_reader)
+        .map_err(|e| AnyTlsError::Tls(format!("failed to parse private key: {e}")))?
+        .ok_or_else(|| AnyTlsError::Tls("no private key found".to_string()))?;
+
+    let config = ServerConfig::builder()
+        .with_no_client_auth()
+        .with_single_cert(certs, key)?;
+
+    Ok(Arc::new(config))
+}
+
 #[derive(Debug)]
 struct NoCertificateVerification;
 
